@@ -7,6 +7,7 @@ import (
 	"testing"
 	"time"
 
+	"github.com/ErdemOzgen/blackdagger/internal/dag"
 	"github.com/ErdemOzgen/blackdagger/internal/persistence/model"
 	"github.com/ErdemOzgen/blackdagger/internal/verifsim/simrt"
 )
@@ -58,6 +59,7 @@ type apiObs struct {
 	step       string
 	rendered   string
 	reqUnknown bool     // the addressed request id is not a recorded run of the DAG
+	viewBefore, viewAfter *model.Status // the addressed run as the API's own lookup by request id shows it
 	start      *cliProc // the process spawned for an accepted start
 }
 
@@ -202,11 +204,23 @@ func apisim(t *testing.T, tp *simrt.Tape, opts RunOpts) *Outcome {
 					action = act(a.Kind)
 				}
 				o.rendered = renderParams(a.Params)
+				view := func() *model.Status {
+					if !strings.HasPrefix(a.Kind, "mark-") || o.reqID == "" || a.BadDag {
+						return nil
+					}
+					st, err := srv.cli.GetStatusByRequestID(&dag.DAG{Name: d.File, Location: dagPath(d)}, o.reqID)
+					if err != nil {
+						return nil
+					}
+					return st
+				}
+				o.viewBefore = view()
 				o.before = dump()
 				o.inv, o.invAt = w.NextSeq(), w.Now()
 				o.resp = srv.action(id, action, a.Value, o.reqID, o.step, o.rendered)
 				o.ret, o.retAt = w.NextSeq(), w.Now()
 				o.after = dump()
+				o.viewAfter = view()
 				obs = append(obs, o)
 				// settle: asynchronous effects of this action (the spawned start) happen before the next one
 				simrt.Sleep(time.Duration(pick(tp, 400, 400, 900, 2500)) * time.Millisecond)
@@ -664,9 +678,33 @@ func checkEdit(chk *agentCheck, o *apiObs, d *DagSpec, liveReq map[string]bool) 
 			continue
 		}
 		if pr.na > 1 || pr.nb > 1 {
-			// one finished run, two record files (x.dat next to its compacted x_c.dat): readers and later
-			// edits may use different ones, so an accepted edit is not reliably "the" state of the run
-			chk.viol("run-record-split", "twin-files", "%s of step %s: run %s has %d record files before and %d after the call", o.act.Kind, o.step, short(id), pr.nb, pr.na)
+			if pr.nb <= 1 {
+				// the call itself split a finished run's record in two (x.dat next to its compacted x_c.dat):
+				// readers and later edits may then use different files
+				chk.viol("run-record-split", "twin-files", "%s of step %s: run %s has %d record files before and %d after the call", o.act.Kind, o.step, short(id), pr.nb, pr.na)
+			} else if id == o.reqID {
+				// two record files left behind by an agent that was killed inside its end-of-run compaction (both
+				// hold the final status; C07's subject). The edit is judged by what the API's own lookup of
+				// the run shows before and after
+				bump(chk.out, "edit_on_run_with_twin_files")
+				if o.viewBefore == nil || o.viewAfter == nil {
+					chk.viol("edit-target-unreadable", "twin-files-after-crash", "%s of run %s was answered 200 but the API's lookup of the run fails", o.act.Kind, short(id))
+				} else {
+					for i, nb := range o.viewBefore.Nodes {
+						if i >= len(o.viewAfter.Nodes) {
+							break
+						}
+						na := o.viewAfter.Nodes[i]
+						if nb.Step.Name == o.step {
+							if na.Status.String() != want {
+								chk.viol("edit-not-applied", want+"/twin-files-after-crash", "%s of step %s in run %s was answered 200 but the API's lookup of the run still shows the step as %q", o.act.Kind, o.step, short(id), na.Status.String())
+							}
+						} else if nb.Status != na.Status || nb.Log != na.Log {
+							chk.viol("edit-changed-other-step", na.Step.Name+"/twin-files-after-crash", "%s of step %s also changed step %s", o.act.Kind, o.step, na.Step.Name)
+						}
+					}
+				}
+			}
 			if id == o.reqID {
 				touchedTarget = true
 			}
